@@ -9,10 +9,9 @@ FULL STATEMENT (not provable here, kept visible):
       ∃ r, frontEnd text = r ∧ (r is a checked program ∨ r is a list of errors whose spans lie in
       the text on char boundaries and render)                    -- no panic / hang / overflow
 The tokenizer, the LALRPOP driver, macro expansion, the renamer and the typechecker are not
-modelled; on the unchanged code the statement is FALSE (three findings reproduced on the real
-code, see notes/C09.md): the layout pass hangs (`layout_hang_fails` below is its witness in the
-model), the tokenizer panics on any non-ASCII scalar outside a literal, and `unescape` panics on
-an unknown escape.  What is proved is the part of the statement that rests on the layout
+modelled; on the current code the statement is still FALSE (findings reproduced on the real
+code, see notes/C09.md; the layout hang D12 and the tokenizer panics D13/D14/D18 have been fixed
+in /repo, `scan_terminates` below is what the D12 fix makes true).  What is proved is the part of the statement that rests on the layout
 algorithm (parser/src/layout.rs, modelled completely in `GluonModel.LayoutAlgo` and tied to the
 real file by an exact correspondence) and on the span arithmetic of parser/src/lib.rs
 (`GluonModel.SpanArith`).  Hence the names `…_partial`.
@@ -75,30 +74,38 @@ theorem layout_guard_suffices_witness :
     layout [Proofs.rp] Proofs.eof0 100 =
       ([{ Proofs.rp with kind := .openBlock }, Proofs.rp], .ok) := rfl
 
-/-! ## Finding `hang:layout:scan_continue_block` (the property FAILS on the unchanged code) -/
+/-! ## `scan_continue_block` terminates (finding `hang:layout:scan_continue_block`, fixed by 3521415) -/
 
-/-- Witness: on the token stream of `rec let x = 1⏎#[` the model of the unchanged layout.rs
-    reports `hang` (the real front end was observed not to return on this text). -/
-theorem layout_hang_fails : (layout Proofs.hangToks Proofs.hangEof 1000).2 = .hang :=
-  Proofs.hang_witness
+/-- The look-ahead scan of layout.rs:148-183 always returns: with `scanFuel` iterations (buffered
+    tokens + remaining input + 3) it never runs dry, from any state and for any first token —
+    each iteration re-reads a buffered token, consumes a token of the input, or meets the
+    tokenizer's EOF and stops. -/
+theorem scan_terminates (c : Ctx) (first : Tok) (st : St) :
+    scanContinueBlock c first st ≠ .hang := by
+  unfold scanContinueBlock
+  split
+  · exact Proofs.scanLoop0_terminates _ _ _
+  · exact Proofs.scanLoop0_terminates _ _ _
+  · simp
 
-/-- `hang` in the model is genuine divergence of the Rust loop `for i in 0..` (layout.rs:159):
-    once the tokenizer is at end of input (it then yields EOF for ever, token.rs:847), all
-    buffered tokens are EOF, and the scan is inside an attribute, NO number of iterations `n`
-    makes `scan_continue_block` return — for either expected token (`let` / `type`). -/
-theorem scan_diverges_fails (expected : Kind) (hexp : expected ≠ .eof) (n i : Nat) (first : Tok)
-    (st : St) (hin : st.input = []) (he : st.eofTok.kind = .eof)
-    (hall : ∀ t ∈ st.unproc, t.kind = .eof) (hi : 1 ≤ i) :
-    scanLoop expected n i true first st = .hang :=
-  Proofs.scanLoop_diverges expected hexp n i first st hin he hall hi
+/-- Hence no call of `layout_next_token` hangs in the scan: for every token stream and every
+    number of calls the layout pass does not end with `hang` (with or without the guard). -/
+theorem layout_never_hangs_partial (guard : Bool) (input : List Tok) (eofTok : Tok) (fuel : Nat) :
+    (run guard fuel (initial input eofTok) []).2 ≠ .hang :=
+  Proofs.run_ne_hang guard fuel _ _
 
-/-- With the suggested one-line fix (`Some(Token::EOF) => return Ok(false)`) the scan returns
-    at once from every state of that divergent region. -/
-theorem scan_fixed (expected : Kind) (hexp : expected ≠ .eof) (n i : Nat) (inAttr : Bool)
-    (first : Tok) (st : St) (hin : st.input = []) (he : st.eofTok.kind = .eof)
-    (hall : ∀ t ∈ st.unproc, t.kind = .eof) (hi : 1 ≤ i) :
-    ∃ st', scanLoopFixed expected (n + 1) i inAttr first st = .done false st' :=
-  Proofs.scanLoopFixed_returns expected hexp n i inAttr first st hin he hall hi
+/-- The former witness of the hang, the token stream of `rec let x = 1⏎#[`, now ends normally. -/
+theorem layout_hang_fixed_witness : (layout Proofs.hangToks Proofs.hangEof 1000).2 = .ok :=
+  Proofs.hang_witness_now_ok
+
+/-- Regression, OLD rule (before 3521415, without the arm `Token::EOF => return Ok(false)`):
+    once the tokenizer was at end of input (it then yields EOF for ever, token.rs:847), all
+    buffered tokens were EOF and the scan was inside an attribute, NO number of iterations `n`
+    made `scan_continue_block` return — for either expected token (`let` / `type`). -/
+theorem scan_old_rule_diverges (expected : Kind) (hexp : expected ≠ .eof) (n i : Nat) (first : Tok)
+    (st : St) (hin : st.input = []) (hall : ∀ t ∈ st.unproc, t.kind = .eof) (hi : 1 ≤ i) :
+    scanLoopOld expected n i true first st = .hang :=
+  Proofs.scanLoopOld_diverges expected hexp n i first st hin hall hi
 
 /-! ## Spans stay inside the source -/
 
@@ -123,10 +130,14 @@ example : Proofs.BottomBlock [⟨⟨0, 5, 5⟩, .let_⟩, ⟨⟨0, 1, 1⟩, .rec
 -- the loop really iterates: `x` on a new line left of two nested blocks needs three passes
 example : (layout [⟨.let_, ⟨0, 1, 1⟩, 4⟩, ⟨.other, ⟨0, 5, 5⟩, 6⟩, ⟨.equals, ⟨0, 7, 7⟩, 8⟩,
                    ⟨.other, ⟨1, 3, 11⟩, 12⟩, ⟨.other, ⟨2, 1, 13⟩, 14⟩] ⟨.eof, ⟨2, 2, 14⟩, 14⟩ 200).2 = .ok := rfl
--- the divergence hypotheses are satisfiable (the state the witness reaches)
-example : scanLoop .let_ 50 1 true Proofs.hangEof
+-- the old rule's divergence hypotheses are satisfiable (the state the old witness reached);
+-- the new rule returns `false` from the same state
+example : scanLoopOld .let_ 50 1 true Proofs.hangEof
     { input := [], eofTok := Proofs.hangEof, unproc := [], stack := [] } = .hang :=
-  scan_diverges_fails .let_ (by decide) 50 1 _ _ rfl rfl (by simp) (by omega)
+  scan_old_rule_diverges .let_ (by decide) 50 1 _ _ rfl (by simp) (by omega)
+example : ∃ st', scanLoop .let_ 50 1 true Proofs.hangEof
+    { input := [], eofTok := Proofs.hangEof, unproc := [], stack := [] } = .done false st' :=
+  ⟨_, rfl⟩
 -- a nil-located EOF error is moved to the end of the source; a located one is kept
 example : fromLalrpop ⟨1, 10⟩ (.unrecognizedEof 0) = ⟨10, 10⟩ := rfl
 example : RawErr.Plausible 1 10 (.unrecognizedToken 3 5) := by simp [RawErr.Plausible]
